@@ -104,5 +104,9 @@ func selfChecks() {
 		_, _, status := gpgv("rsaA", false, "/repo/functest/packages/InRelease")
 		res["gpgv plumbing"] = "InRelease (Ubuntu): " + firstLines([]byte(status), 1)
 	}
+	// (6) Apple code signatures: the ad-hoc signatures Apple's codesign left in fatfile.app
+	res["code signature reader + reference (Mach-O)"] = selfCheckCodeSign()
+	// (7) xar: Apple's productbuild archive
+	res["xar reader"] = selfCheckXar()
 	run.Set("reference_selfchecks", res)
 }
